@@ -50,7 +50,7 @@ class ParserQueue:
 
     def __iter__(self):
         while True:
-            return self.get()
+            yield self.get()
 
     def iterpoll(self):
         while True:
